@@ -219,7 +219,8 @@ def run_nofault(ctx, n):
 # ---------------------------------------------------------------------------
 PLAIN_FAULTS = ["404", "403", "500", "503", "close_before",
                 "close_after_headers"]
-RANGE_FAULTS = PLAIN_FAULTS + ["short_body", "long_200"]
+RANGE_FAULTS = PLAIN_FAULTS + ["short_body", "long_200", "500_samelen",
+                              "404_samelen", "500_samelen"]
 
 
 @st.composite
@@ -256,7 +257,8 @@ def check_fault(ctx, case):
             k = case["fault_k"] % nreq
             kind = case["fault_kind"]
             is_range = log[k][2] is not None
-            if kind in ("short_body", "long_200") and not is_range:
+            if kind in ("short_body", "long_200", "500_samelen",
+                        "404_samelen") and not is_range:
                 kind = PLAIN_FAULTS[case["fault_k"] % len(PLAIN_FAULTS)]
             if kind == "404" and log[k][0] == "HEAD":
                 pass   # an ordinary negative answer of an existence probe
